@@ -77,14 +77,14 @@ CHECKS = {
         "GET/POST/PUT(/OPTIONS), with and without a path prefix, for every template instantiated with symbolic argument values, and for template instances written with "
         "percent-escapes as RawPath, the real FindPath and ServeHTTP are executed and compared with a reference matcher built from the templates: method and template-instance "
         "soundness (P1), no slash in arguments (P1'), static-beats-templated (P2), completeness for values avoiding slashes/tail characters (P3, with the 405-by-more-specific-"
-        "template clause), 404/405/Allow (P4), lookup-vs-serving agreement with and without prefix (P5). Three router defects are carried as known findings with input-region keys.",
+        "template clause), 404/405/Allow (P4), lookup-vs-serving agreement with and without prefix (P5); with a configured prefix the same escaped request with the PREFIX spelled with a needless escape must be routed to the same operation with the same arguments (C12's consequence for routing). Three router defects are carried as known findings with input-region keys.",
    design="4 C05", technique="symbolic execution of generated Go (go/ssa) + SMT, differential against a template-derived reference matcher"),
  "C02": dict(
    text="KERNEL CLAIM plus a concrete side-condition. Solver-decided: bounded symbolic model checking of the identifier synthesis in gen/names.go (pascal, pascalSpecial, pascalNonEmpty, camel, "
         "camelSpecial, cleanSpecial with go/token.IsIdentifier, unicode case mapping and the naming rule table executed from SSA): for every ASCII name of 0..3 (4) bytes the result is an error or satisfies "
-        "the Go identifier grammar, is not a keyword and not '_'. NOT solver-decided (no symbolic dimension; the whole generator and the Go type checker are out of reach): a matrix of about 170 hostile/feature specs "
+        "the Go identifier grammar, is not a keyword and not '_'. NOT solver-decided (no symbolic dimension; the whole generator and the Go type checker are out of reach): a matrix of about 180 hostile/feature specs "
         "(names, enum edge values, shared generic responses, object-shaped parameters per location/style, pattern+default responses, 10 feature configurations incl. client-only / server-only / validation / "
-        "example tests) is generated by the tree's generator in every run and every accepted package - and its generated tests - must go build; a generator panic counts as a violation. Four known findings.",
+        "example tests, and a family of format x keyword mixes on one property) is generated by the tree's generator in every run and every accepted package - and its generated tests - must go build; a generator panic counts as a violation. Nine known findings.",
    design="4 C02", technique="symbolic execution of go/ssa + SMT over all short names (kernel); concrete generate-and-build matrix as a side-condition"),
  "C07": dict(
    text="Bounded symbolic model checking of (a) jsonpointer.ResolveCtx (the cycle/depth mechanism): from every pre-state with 0..3 distinct in-progress references built through the real AddKey, one "
@@ -100,8 +100,8 @@ CHECKS = {
         "symbolic selector applies one of 66 single-node faults (null / empty / dropped part) and, separately, 19 scalar fields (status key, parameter location/style/name, media-type key, schema type/format, "
         "reference text, security type/in/scheme, server URL, version ...) are arbitrary strings of 0..2 (3) bytes or a vocabulary keyword with its last two bytes arbitrary; (b) parser.pathID and parsePath with real "
         "url.Parse and pathParser on every byte string of 0..3 (5) bytes with and without a leading slash; (c) uri.NormalizeEscapedPath on every string of 0..6 (8) bytes; (d) jsonpointer.Resolve on arbitrary short pointers and on index tokens of up to 21 (22) digits. Cyclic parameter schemas are among the faults (unbounded recursion is reported when the native run dies of stack exhaustion). A path that exhausts the instruction budget "
-        "is replayed natively under a time limit and reported as non-termination only when the native build does not finish either. NOT solver-decided (concrete side-condition, like C02's build matrix): two documents (about 640 nodes) are damaged at every "
-        "node in turn (null / retyped; thorough also emptied / deleted: about 2400 documents) and sent through the WHOLE pipeline of the tree's generator - it must return a diagnostic or write a package that "
+        "is replayed natively under a time limit and reported as non-termination only when the native build does not finish either. NOT solver-decided (concrete side-condition, like C02's build matrix): three documents (about 690 nodes; the third has pattern properties next to declared ones, tuple-typed items and nested sums) are damaged at every "
+        "node in turn (null / retyped; thorough also emptied / deleted: about 2600 documents), plus a recursive allOf merge run in a process of its own (a fatal stack exhaustion cannot be recovered in process; when the batch process dies every document is re-run in isolation), and sent through the WHOLE pipeline of the tree's generator - it must return a diagnostic or write a package that "
         "builds; a panic is a violation. Time/memory bounds and diagnostic positions are NOT decided.",
    design="4 C11", technique="symbolic execution of go/ssa + SMT: no-panic/termination over symbolic fault selectors and short symbolic texts; concrete whole-pipeline fault matrix as a side-condition"),
  "C08": dict(
@@ -111,7 +111,7 @@ CHECKS = {
         "\\d\\w\\s and negations, dot, \\c \\x \\u \\u{} octal and identity escapes, classes incl. []/[^]/[\\b], non-BMP literals; 8 quantifiers, groups, alternation, edge anchors); the REAL "
         "ogenregex.Convert/Compile of /repo's tree is run on each; when the linear-time engine is chosen the ECMA pattern (Unicode-aware reading of its AST) and the converted RE2 text are "
         "both turned into RegLan terms - the RE2 side from Go's own regexp/syntax parse of the expression the compiled value really holds - and z3 5.1 decides that the symmetric difference of the two search languages is empty for ALL subject strings (no length bound); a witness is replayed "
-        "on the real ogenregex engine and on regexp2 (ECMAScript|Unicode) and counts only when the SMT reference and regexp2 agree against ogen. Non-regular patterns (look-around, back-references incl. \\\\n after n groups for n = 1..12) are checked for engine choice; String() is checked natively; Convert's totality on all byte strings of 0..3 (5) bytes is decided by an SSA unit.",
+        "on the real ogenregex engine and on regexp2 (ECMAScript|Unicode) and counts only when the SMT reference and regexp2 agree against ogen. For every pattern whose conversion is proved equivalent the solver also picks a member of the search language and, for anchored patterns, a non-member that contains a member; the compiled value's real Match must decide both correctly (two-oracle rule with regexp2), so a fast path in the matching wrapper is seen although Convert's output is unchanged. Non-regular patterns (look-around, back-references incl. \\\\n after n groups for n = 1..12) are checked for engine choice; String() is checked natively; Convert's totality on all byte strings of 0..3 (5) bytes is decided by an SSA unit.",
    note="SMT-LIB regex semantics of z3 5.1.0; the ECMA-side pattern-to-RegLan translator written in this check and the mapping of Go's regexp/syntax AST to RegLan (validated by witness replay on the real engines); the matching engines themselves are not executed symbolically; alphabet: code points <= 0x2FFFF",
    design="4 C08", technique="SMT regular-expression equivalence (z3 seq/re theory) on Convert's real output + symbolic execution of Convert for totality"),
  "C01": dict(
